@@ -89,7 +89,7 @@ CLAIMED = {
  'C15': dict(level='proof', design='6.C15',
    text='Plugin.process_message opens a connection in the sink exactly on first sight of its id (role from the get_registry direction), forwards under the message own connection id, leaves other entries untouched and raises nothing but what the sink raises; '
         'close_connection removes the entry, closes in the sink once and raises for no id (the KeyError for never-seen connections was a genuine defect: found by the check, repaired by a fix: commit); a re-used address is opened again as a new connection by the manager contract (C04).',
-   note='Assumed gdb API (selected_thread, breakpoints). The destroy breakpoint stop() wrapper and connection_id_of are one-liners over the gdb API and not under contract. Thread-mismatch warning: only that it does not raise / change entries.',
+   note='Assumed gdb API (selected_thread, breakpoints). The destroy breakpoint stop() wrapper is a bounded contract over stand-in frames (closes exactly the destroyed connection, keeps running). Thread-mismatch warning: only that it does not raise / change entries.',
    technique='contract-based deductive verification; native replay of the counterexample; z3'),
  'C08': dict(level='proof', design='6.C08',
    text='Loop contract of Parser.parse_all on ghost input/ext traces and counters: every line read yields exactly one item - one forward to the sink (decoded message) or one pass-through whose text is the stripped line itself - the item is produced before the next read (the last event before a read is never a read), the loop only ends at end of input (or KeyboardInterrupt) and decoding is never switched off; '
